@@ -131,13 +131,13 @@ def classes(case):
 
 SUBS = [
     Sub("wide-groups", check, gen=lambda tier: st.one_of(_bool.wide_group_cases(max_members=24), _bool.wide_group_cases(max_members=10)),
-        nontrivial=nontrivial, classes=classes, n={"quick": 7, "thorough": 300},
+        nontrivial=nontrivial, classes=classes, n={"quick": 7, "thorough": 100},
         essential=["bounds:text-order-differs", "pl-too"]),
     # the propositional export of a group of 16-17 members (tens of thousands of combinations, megabytes of text):
     # few cases, few selections - bounds in particular arithmetic relationships to the number of members
     Sub("pl-wide-groups", check, gen=lambda tier: _bool.wide_group_cases(min_members=16, max_members=17, few_selections=True, special_bounds=True).map(
         lambda c: {**c, "pl": True}), nontrivial=nontrivial, classes=classes,
-        n={"quick": 2, "thorough": 12}, shards={"quick": 8, "thorough": 16}),
+        n={"quick": 2, "thorough": 6}, shards={"quick": 8, "thorough": 16}),
     Sub("constraint-shapes", check, enum=_bool.enum_constraint_shapes, nontrivial=nontrivial, classes=classes,
         exhaustive=False),
     Sub("exports", check, gen=lambda tier: S.model_specs(PROFILE, 1, 9), nontrivial=nontrivial, classes=classes,
